@@ -476,6 +476,8 @@ class System:
         if isinstance(m, tuple):
             arguments, resnorm = m
             log.info(f'residual norm: {resnorm:.1e}')
+            if not numpy.isfinite(resnorm):
+                raise SolverError('residual norm is not finite')
             if resnorm > tol > 0:
                 raise SolverError(f'failed to reach desired tolerance of {tol:.0e}')
         else:
@@ -486,7 +488,9 @@ class System:
                 log.info(f'residual norm: {resnorm:.1e}')
             resnorm0 = resnorm
             iiter = 0
-            while iiter < miniter or resnorm > tol:
+            while iiter < miniter or not resnorm <= tol:
+                if not numpy.isfinite(resnorm):
+                    raise SolverError('residual norm is not finite')
                 if maxiter is not None and iiter >= maxiter:
                     raise SolverError(f'failed to converge in {maxiter} iterations')
                 iiter += 1
@@ -1422,7 +1426,9 @@ class _with_solve:
                 it = enumerate(self)
                 iiter, (lhs, info) = next(it)
                 resnorm0 = info.resnorm
-                while info.resnorm > tol or iiter < miniter:
+                while not info.resnorm <= tol or iiter < miniter:
+                    if not numpy.isfinite(info.resnorm):
+                        raise SolverError('residual norm is not finite')
                     if iiter >= maxiter:
                         raise SolverError(f'failed to reach target tolerance in {maxiter} iterations')
                     recontext(f'{iiter+1} ({100 * numpy.log(resnorm0 / max(info.resnorm, tol)) / numpy.log(resnorm0 / tol):.0f}%)')
